@@ -6,10 +6,15 @@ Stated against the escape table regenerated from /repo (`Gen.shellEscapes`).
 import Martian.ShellQuote
 import Proofs.ShellQuote
 import Proofs.ShellWords
+import Martian.JobTemplate
+import Proofs.ShellLine
+import Proofs.ShellScript
+import Proofs.ShellShapes
+import Proofs.ShellJob
 import Gen.Facts
 
 namespace Props.C18
-open Martian.ShellQuote
+open Martian.ShellQuote Martian.JobTemplate
 
 /-- Regenerated obligation: the escape table found in the current source is
 sound for POSIX double quotes (covers `$`, `` ` ``, `"`, `\`; escapes nothing a
@@ -68,5 +73,150 @@ theorem formatArgs_sorted_words (envs : List (Bytes × Bytes)) (cmd : Bytes) (ar
 example : (∀ kv ∈ [([0x41, 0x5F, 0x31], [0x24, 0x28, 0x69, 0x64, 0x29])],
       (∀ b ∈ (kv : Bytes × Bytes).1, isPlain b = true) ∧ validUtf8 kv.2 = true ∧ (0 : UInt8) ∉ kv.2)
     ∧ (validUtf8 [0x60, 0x22] = true ∧ (0 : UInt8) ∉ [0x60, 0x22]) := by decide
+
+/-! ## Whole job scripts (template substitution of `RemoteJobManager.jobScript`)
+
+`Martian.JobTemplate.run/shToks` is a POSIX shell line lexer (state machine:
+blanks, newline, backslash, double and single quotes, comments, `>` `N>` `&`,
+`$!`, assignment prefixes; anything else is refused).  `renderScript` is the
+substitution on a template cut into lines and segments (the regenerated fact
+`Gen.jobTemplates`), `params` the parameter table of `jobScript`. -/
+
+/-- Regenerated obligation: names, order and KINDS of the `jobScript` parameters are those of
+the model — STDOUT, STDERR, JOB_WORKDIR go through `shellSafeQuote`, CMD is `formatArgs`, the
+numbers are `strconv.Itoa`, and exactly JOB_NAME, ACCOUNT, RESOURCES are substituted raw.
+Fails on a tree that stops quoting one of them or adds a parameter. -/
+theorem job_params_match_source : paramSpec = Gen.jobScriptParams := by decide
+
+/-- Regenerated obligation: every line of every shipped template (with a command line) has a
+shape the theorems below cover: empty, a `#` line not holding the command, `__MRO_CMD__` alone,
+`__MRO_RESOURCES__` alone, `cd __MRO_JOB_WORKDIR__`, or the fake_remote line
+`/usr/bin/env __MRO_CMD__ > __MRO_STDOUT__ 2> __MRO_STDERR__ & echo $!`; its literal text holds
+no newline and its variables are parameters.  In particular no raw parameter and no variable
+inside template quotes occurs on a command line.  Fails when a template gains another shape. -/
+theorem shipped_templates_covered : Gen.jobTemplates.all (fun t => t.2.all lineOK) = true := by
+  decide
+
+/-- Non-vacuity: templates were found, each holds exactly one command line with `__MRO_CMD__`. -/
+example : Gen.jobTemplates.length ≥ 8 ∧ Gen.jobTemplates.all (fun t =>
+    (t.2.filter fun l => shapeOf l == .cmdAlone || shapeOf l == .envCmdBg).length == 1) = true := by
+  decide
+
+/-- Regenerated obligation: every `resopt` of jobmanagers/config.json (the text that, with the
+mapped resource, replaces `__MRO_RESOURCES__`) is a one-line `#` directive. -/
+theorem resopts_are_directives :
+    Gen.jobResOpts.all (fun p => match p.2 with
+      | 0x23 :: r => !r.contains 0x0A
+      | _ => false) = true := by decide
+
+example : Gen.jobResOpts ≠ [] := by decide
+
+/-- … and then so is the substituted option, whatever newline-free resource is mapped:
+the hypothesis `JobOK.res` of the theorems below holds for the shipped configuration. -/
+theorem resources_option_is_comment (res r : Bytes) (hr : (0x0A : UInt8) ∉ r)
+    (hres : (0x0A : UInt8) ∉ res) :
+    ∃ r', replaceFirst resKey res (0x23 :: r) = 0x23 :: r' ∧ (0x0A : UInt8) ∉ r' := by
+  refine ⟨replaceFirst resKey res r, replaceFirst_hash res r, ?_⟩
+  intro h
+  rcases replaceFirst_mem resKey res r _ h with h | h
+  · exact hres h
+  · exact hr h
+
+/-- `formatArgs` in the state machine: from the start of a command, the lexer completes exactly
+the words `KEY=value`… (marked as assignments), `cmd`, `arg`… — all but the last, which is
+pending until the text after it ends the word.  Values arbitrary NUL-free valid UTF-8. -/
+theorem formatArgs_tokens (envs : List (Bytes × Bytes)) (cmd : Bytes) (argv : List Bytes)
+    (hk : ∀ kv ∈ envs, isName kv.1 = true ∧ validUtf8 kv.2 = true ∧ (0 : UInt8) ∉ kv.2)
+    (hc : validUtf8 cmd = true ∧ (0 : UInt8) ∉ cmd)
+    (ha : ∀ a ∈ argv, validUtf8 a = true ∧ (0 : UInt8) ∉ a) :
+    shToks (formatArgsOrdered Gen.shellEscapes envs cmd argv)
+      = some (envs.map (fun kv => Tok.word (assignWord kv) true) ++ w cmd :: argv.map w) := by
+  unfold shToks
+  rw [run_formatArgsOrdered table_ok envs cmd argv hk hc ha]
+  simp only [finish, flush]
+  have := congrArg (List.map w) (initOf_lastOf cmd argv)
+  simp only [List.map_append, List.map_cons, List.map_nil] at this
+  rw [← this]
+  simp [w]
+
+/-- no_injection, whole script, general form: for ANY template made of covered lines and ANY
+values — command, arguments, environment (names are names), paths: arbitrary NUL-free valid
+UTF-8 — the shell's token list of the rendered script is `expectedToks`: per line the
+assignments in sorted order, the command and the arguments, each reproduced byte for byte
+(plus the template's own words and operators), separated by newline tokens; number and
+boundaries of the tokens do not depend on the values.  Comment lines need their values to be
+newline-free (`hnl`). -/
+theorem script_tokens (vals : String → Bytes) (g : Given) (hv : ValsOK Gen.shellEscapes vals g)
+    (ls : List SegLine) (hs : ∀ l ∈ ls, shapeOf l ≠ .other)
+    (hnl : ∀ l ∈ ls, shapeOf l = .inert →
+      ∀ s ∈ l, (0x0A : UInt8) ∉ (if segIsVar s then vals s.1 else s.2)) :
+    shToks (renderScript vals ls) = some (expectedToks g ls) :=
+  script_tokens_of_lines table_ok hv ls hs hnl
+
+/-- no_injection for every SHIPPED template and the parameter values `jobScript` computes
+(`params`: quoted paths, `formatArgs` of the thread variables merged with the job's
+environment, decimal numbers, raw job name / account / resources option). -/
+theorem jobScript_tokens (t : String × List SegLine) (ht : t ∈ Gen.jobTemplates)
+    (j : JobIn) (hj : JobOK j) (hn : NoNl j) :
+    shToks (renderScript (valsOf (params Gen.shellEscapes j)) t.2)
+      = some (expectedToks (givenOf Gen.shellEscapes j) t.2) := by
+  have := shipped_templates_covered
+  rw [List.all_eq_true] at this
+  exact job_tokens_of_lines table_ok j hj hn t.2 (this t ht)
+
+/-- Templates whose comment lines hold no variable (fake_remote.template): the same without
+any newline hypothesis — paths with newlines are reproduced too. -/
+theorem jobScript_tokens_no_comment_vars (t : String × List SegLine) (ht : t ∈ Gen.jobTemplates)
+    (hnv : noVarsInComments t.2 = true) (j : JobIn) (hj : JobOK j) :
+    shToks (renderScript (valsOf (params Gen.shellEscapes j)) t.2)
+      = some (expectedToks (givenOf Gen.shellEscapes j) t.2) := by
+  have := shipped_templates_covered
+  rw [List.all_eq_true] at this
+  exact job_tokens_no_comment_vars table_ok j hj t.2 (this t ht) hnv
+
+/-- Non-vacuity: such a template is shipped. -/
+example : ∃ t ∈ Gen.jobTemplates, noVarsInComments t.2 = true := by decide
+
+/-- Non-vacuity of `JobOK`/`NoNl`: a job with metacharacters in command, argument, environment
+value and paths (`$(id)`, backtick, quote, backslash, blank) is inside the domain. -/
+example : ∃ j : JobIn, JobOK j ∧ NoNl j ∧ j.cmd = [0x2F, 0x24, 0x28, 0x69, 0x64, 0x29] :=
+  ⟨{ tmpl := [], fqname := [0x49, 0x44], shellName := [0x6D], stdout := [0x2F, 0x60, 0x22],
+     stderr := [0x2F, 0x5C], workdir := [0x2F, 0x20, 0x27], threadEnvs := [[0x54]],
+     envs := [([0x41], [0x24, 0x48])], cmd := [0x2F, 0x24, 0x28, 0x69, 0x64, 0x29],
+     argv := [[0x3B, 0x26]], threads := 1, memGB := 1, vmemGB := 0, threadsPerJob := 1,
+     memGBPerJob := 1, extraVmemGB := 0, memGBPerCore := 0, alwaysVmem := false, account := [],
+     special := [], mappings := [], resOpt := [] },
+   { threadEnvs := by decide, envs := by decide, cmd := by decide, argv := by decide,
+     stdout := by decide, stderr := by decide, workdir := by decide, res := Or.inl rfl },
+   { fqname := by decide, shellName := by decide, stdout := by decide, stderr := by decide,
+     workdir := by decide, account := by decide }, rfl⟩
+
+/-- Negative witness (F31): the newline hypothesis cannot be dropped for templates that carry a
+path on a scheduler-directive line.  `#$ -o ` followed by the correctly quoted path
+`/p⏎id #`: the newline ends the comment and the shell reads the command `id`. -/
+theorem newline_in_directive_path_is_code :
+    shToks ([0x23, 0x24, 0x20, 0x2D, 0x6F, 0x20] ++
+        quote Gen.shellEscapes [0x2F, 0x70, 0x0A, 0x69, 0x64, 0x20, 0x23])
+      = some [Tok.nl, Tok.word [0x69, 0x64] false] := by decide
+
+set_option maxRecDepth 20000 in
+/-- Values substituted RAW (JOB_NAME, ACCOUNT, RESOURCES): in every shipped template they sit
+on `#` lines only (`shipped_templates_covered`), where every byte but newline is harmless.  On a
+command line a raw byte `b` between two letters stays part of one literal word exactly when it
+is a letter, digit, `_` or one of `/ . - + : , @ % #` (`=` keeps one word but gives it the
+shape of an assignment; every other byte — blank, quote, `$`, `&`, `;`, `|`, `<`, `>`, `(`,
+`*`, `?`, `~`, backslash, control and non-ASCII bytes … — is split, interpreted or refused): -/
+theorem raw_byte_safe_iff :
+    (List.range 256).all (fun n =>
+      let b := n.toUInt8
+      (shToks [0x78, b, 0x78] == some [Tok.word [0x78, b, 0x78] false])
+        == (isNameCh b || isBareExtra b || b == 0x23)) = true := by decide
+
+/-- Negative witness for a raw value on a command line: the fork name of the map key `a&b`
+(`url.PathEscape` leaves `$ & + = : @` alone) would be split into two commands. -/
+theorem raw_job_name_on_command_line_splits :
+    shToks [0x65, 0x63, 0x68, 0x6F, 0x20, 0x61, 0x26, 0x62]
+      = some [Tok.word [0x65, 0x63, 0x68, 0x6F] false, Tok.word [0x61] false, Tok.op [0x26],
+              Tok.word [0x62] false] := by decide
 
 end Props.C18
